@@ -1,0 +1,68 @@
+//go:build verif
+
+// Machine-checked contracts for package healthcheck (comment-only; read by /verif/govc).
+
+package healthcheck
+
+// ---- active filter state (property C23) -------------------------------------------------
+//
+// The abstract state of a host a is (trend[a], a in healthy), where a missing trend entry
+// reads as 0. trend encodes the run of identical outcomes since the host joined:
+//   cf = max(0 - trend, 0) consecutive fails (capped at Fails),
+//   cp = max(trend, 0) consecutive passes (capped at Passes).
+// The postconditions of failed/passed are the reference transitions of the documented
+// hysteresis written over (cf, cp, healthy); they are not derived from the code's formula.
+
+//@ lockinv state.Mutex self s guards contents all, contents healthy, contents trend
+//@   invariant healthy_in_all: forall a string :: a in s.healthy ==> a in s.all
+//@   invariant trend_in_all: forall a string :: a in s.trend ==> a in s.all
+//@   invariant trend_range: forall a string :: a in s.trend ==> 0 - s.config.Fails <= s.trend[a] && s.trend[a] <= s.config.Passes && s.trend[a] != 0
+//@   invariant unhealthy_at_floor: forall a string :: a in s.trend && s.trend[a] == 0 - s.config.Fails ==> !(a in s.healthy)
+//@   invariant healthy_at_ceiling: forall a string :: a in s.trend && s.trend[a] == s.config.Passes ==> a in s.healthy
+
+//@ specfunc stateShape(s *state) bool = s != nil && s.all != nil && s.healthy != nil && s.trend != nil && s.all != s.healthy && s.config.Fails >= 1 && s.config.Passes >= 1 && s.config.Fails <= 1000000 && s.config.Passes <= 1000000
+
+//@ func state.failed
+//@   requires stateShape(s)
+//@   requires_locked monitored: addr in s.all
+//@   modifies map s.trend, map s.healthy
+//@   ensures trend: s.trend[addr] == 0 - min(max(0 - old(s.trend[addr]), 0) + 1, s.config.Fails)
+//@   ensures recorded: addr in s.trend
+//@   ensures healthy: (addr in s.healthy) <==> (old(addr in s.healthy) && s.trend[addr] != 0 - s.config.Fails)
+//@   ensures others_trend: forall b string :: b != addr ==> ((b in s.trend) <==> old(b in s.trend)) && s.trend[b] == old(s.trend[b])
+//@   ensures others_healthy: forall b string :: b != addr ==> ((b in s.healthy) <==> old(b in s.healthy))
+
+//@ func state.passed
+//@   requires stateShape(s)
+//@   requires_locked monitored: addr in s.all
+//@   modifies map s.trend, map s.healthy
+//@   ensures trend: s.trend[addr] == min(max(old(s.trend[addr]), 0) + 1, s.config.Passes)
+//@   ensures recorded: addr in s.trend
+//@   ensures healthy: (addr in s.healthy) <==> (old(addr in s.healthy) || s.trend[addr] == s.config.Passes)
+//@   ensures others_trend: forall b string :: b != addr ==> ((b in s.trend) <==> old(b in s.trend)) && s.trend[b] == old(s.trend[b])
+//@   ensures others_healthy: forall b string :: b != addr ==> ((b in s.healthy) <==> old(b in s.healthy))
+
+//@ func state.sync
+//@   requires stateShape(s) && addrs != nil && addrs != s.all && addrs != s.healthy
+//@   modifies map s.all, map s.healthy, map s.trend
+//@   ensures all_is_addrs: forall a string :: (a in s.all) <==> (a in addrs)
+//@   ensures joiners_healthy: forall a string :: a in addrs && !old(a in s.all) ==> a in s.healthy
+//@   ensures joiners_no_trend: forall a string :: a in addrs && !old(a in s.all) && !old(a in s.trend) ==> !(a in s.trend)
+//@   ensures stayers_healthy: forall a string :: a in addrs && old(a in s.all) ==> ((a in s.healthy) <==> old(a in s.healthy))
+//@   ensures stayers_trend: forall a string :: a in addrs && old(a in s.all) ==> ((a in s.trend) <==> old(a in s.trend)) && s.trend[a] == old(s.trend[a])
+//@   ensures leavers_forgotten: forall a string :: old(a in s.all) && !(a in addrs) ==> !(a in s.healthy) && !(a in s.trend)
+//@   ensures addrs_unchanged: forall a string :: (a in addrs) <==> old(a in addrs)
+//@   loop 0 invariant addrs_same: forall a string :: (a in addrs) <==> old(a in addrs)
+//@   loop 0 invariant seen_in_all: forall a string :: seen0(a) ==> a in s.all
+//@   loop 0 invariant all_grows: forall a string :: (a in s.all) <==> (old(a in s.all) || (seen0(a) && a in addrs))
+//@   loop 0 invariant healthy_grows: forall a string :: (a in s.healthy) <==> (old(a in s.healthy) || (seen0(a) && a in addrs && !old(a in s.all)))
+//@   loop 0 invariant trend_same: forall a string :: ((a in s.trend) <==> old(a in s.trend)) && s.trend[a] == old(s.trend[a])
+//@   loop 1 invariant addrs_same: forall a string :: (a in addrs) <==> old(a in addrs)
+//@   loop 1 invariant all_shrinks: forall a string :: (a in s.all) <==> ((old(a in s.all) || a in addrs) && !(seen1(a) && !(a in addrs)))
+//@   loop 1 invariant healthy_shrinks: forall a string :: (a in s.healthy) <==> ((old(a in s.healthy) || (a in addrs && !old(a in s.all))) && !(seen1(a) && !(a in addrs)))
+//@   loop 1 invariant trend_shrinks: forall a string :: ((a in s.trend) <==> (old(a in s.trend) && !(seen1(a) && !(a in addrs)))) && (a in s.trend ==> s.trend[a] == old(s.trend[a]))
+
+//@ func state.getHealthy
+//@   requires stateShape(s)
+//@   ensures copy: forall a string :: (a in result) <==> (a in s.healthy)
+//@   ensures isfresh: fresh(result)
